@@ -1,5 +1,11 @@
 pub mod common;
 pub mod c01;
+pub mod c02;
+pub mod c06;
+pub mod wire;
+pub mod c05;
+pub mod c12;
+pub mod c13;
 pub mod c07;
 pub mod c08;
 
@@ -15,7 +21,12 @@ pub fn level_of(prop: &str) -> &'static str {
 pub fn run(ctx: &Ctx) -> bool {
     match ctx.prop.as_str() {
         "C01" => c01::run(ctx),
+        "C02" => c02::run(ctx),
+        "C05" => c05::run(ctx),
+        "C06" => c06::run(ctx),
         "C07" => c07::run(ctx),
+        "C12" => c12::run(ctx),
+        "C13" => c13::run(ctx),
         "C08" => c08::run(ctx),
         _ => return false,
     }
